@@ -30,6 +30,19 @@ pub fn dispatch(k: &str, t: &[&str]) -> Option<String> {
             let ms2 = MetaStore::deserialize(&bytes).unwrap();
             Some(format!("{} {}", ms2.next_wal_id, ms2.earliest_unflushed_wal_id))
         }
+        "subpartition_key" => {
+            // PartitionMetadata with sub-partitions whose last columns are the given (hex) names, keys key0, key1, ...
+            let lasts: Vec<String> = t[0].split(',').map(|h| unsafe { String::from_utf8_unchecked(unhex(h)) }).collect();
+            let name = unsafe { String::from_utf8_unchecked(unhex(t[1])) };
+            let mut subpartitions = vec![];
+            let mut by_last = BTreeMap::new();
+            for (k, last) in lasts.iter().enumerate() {
+                by_last.insert(last.clone(), k);
+                subpartitions.push(SubpartitionMetadata { size_bytes: 1, subpartition_key: format!("key{}", k), last_column: last.clone(), loaded: Arc::new(AtomicBool::new(k % 2 == 1)) });
+            }
+            let pm = PartitionMetadata { id: 0, tablename: "t".to_string(), offset: 0, len: 1, subpartitions, subpartitions_by_last_column: by_last };
+            match pm.subpartition_key(&name) { Some(k) => Some(format!("some {}", hex(k.as_bytes()))), None => Some("none".to_string()) }
+        }
         _ => None,
     }
 }
